@@ -10,12 +10,12 @@ package main
 //   - limitProbe (thorough): the decoder's configured MaxArrayElements (read from encoder.go) -1, +0, +1.
 
 import (
-	"bytes"
 	"encoding/json"
 	"fmt"
 	"math/bits"
 	"reflect"
 	"strings"
+	"sync"
 
 	"github.com/NethermindEth/juno/core"
 	"github.com/NethermindEth/juno/core/felt"
@@ -83,6 +83,11 @@ func feltMapN(n int, salt uint64) map[felt.Felt]*felt.Felt {
 }
 
 // one storable value per container kind, the container having exactly n elements
+type lazySized struct {
+	kind  string
+	build func() sized
+}
+
 type sized struct {
 	kind  string // e.g. "array:InvokeTransaction.CallData", "map:StateDiff.Nonces"
 	write func(d *memory.Database) error
@@ -90,97 +95,142 @@ type sized struct {
 	want  any
 }
 
-func sizedValues(n int) []sized {
-	var out []sized
+func sizedValues(n int) []lazySized {
+	var out []lazySized
 	h7 := new(felt.Felt).SetUint64(7)
 	one := new(core.TransactionVersion).SetUint64(1)
-	tx := func(kind string, t core.Transaction) {
-		out = append(out, sized{kind: kind,
-			write: func(d *memory.Database) error {
-				return core.WriteTransactionsAndReceipts(d, 1, []core.Transaction{t}, nil)
-			},
-			read: func(d *memory.Database) (any, error) { return core.GetTransactionByBlockAndIndex(d, 1, 0) },
-			want: t})
+	tx := func(kind string, mk func() core.Transaction) {
+		out = append(out, lazySized{kind, func() sized {
+			t := mk()
+			return sized{kind: kind,
+				write: func(d *memory.Database) error {
+					return core.WriteTransactionsAndReceipts(d, 1, []core.Transaction{t}, nil)
+				},
+				read: func(d *memory.Database) (any, error) { return core.GetTransactionByBlockAndIndex(d, 1, 0) },
+				want: t}
+		}})
 	}
-	rc := func(kind string, r *core.TransactionReceipt) {
-		out = append(out, sized{kind: kind,
-			write: func(d *memory.Database) error {
-				return core.WriteTransactionsAndReceipts(d, 1, nil, []*core.TransactionReceipt{r})
-			},
-			read: func(d *memory.Database) (any, error) { return core.GetReceiptByBlockAndIndex(d, 1, 0) },
-			want: r})
+	rc := func(kind string, mk func() *core.TransactionReceipt) {
+		out = append(out, lazySized{kind, func() sized {
+			r := mk()
+			return sized{kind: kind,
+				write: func(d *memory.Database) error {
+					return core.WriteTransactionsAndReceipts(d, 1, nil, []*core.TransactionReceipt{r})
+				},
+				read: func(d *memory.Database) (any, error) { return core.GetReceiptByBlockAndIndex(d, 1, 0) },
+				want: r}
+		}})
 	}
-	su := func(kind string, diff *core.StateDiff) {
-		u := &core.StateUpdate{BlockHash: h7, StateDiff: diff}
-		out = append(out, sized{kind: kind,
-			write: func(d *memory.Database) error { return core.WriteStateUpdateByBlockNum(d, 1, u) },
-			read:  func(d *memory.Database) (any, error) { return core.GetStateUpdateByBlockNum(d, 1) },
-			want:  u})
+	su := func(kind string, mk func() *core.StateDiff) {
+		out = append(out, lazySized{kind, func() sized {
+			u := &core.StateUpdate{BlockHash: h7, StateDiff: mk()}
+			return sized{kind: kind,
+				write: func(d *memory.Database) error { return core.WriteStateUpdateByBlockNum(d, 1, u) },
+				read:  func(d *memory.Database) (any, error) { return core.GetStateUpdateByBlockNum(d, 1) },
+				want:  u}
+		}})
 	}
-	class := func(kind string, c core.ClassDefinition) {
-		def := &core.DeclaredClassDefinition{At: 1, Class: c}
-		out = append(out, sized{kind: kind,
-			write: func(d *memory.Database) error { return core.WriteClass(d, h7, def) },
-			read:  func(d *memory.Database) (any, error) { return core.GetClass(d, h7) },
-			want:  def})
+	class := func(kind string, mk func() core.ClassDefinition) {
+		out = append(out, lazySized{kind, func() sized {
+			def := &core.DeclaredClassDefinition{At: 1, Class: mk()}
+			return sized{kind: kind,
+				write: func(d *memory.Database) error { return core.WriteClass(d, h7, def) },
+				read:  func(d *memory.Database) (any, error) { return core.GetClass(d, h7) },
+				want:  def}
+		}})
 	}
-	tx("array:InvokeTransaction.CallData", &core.InvokeTransaction{TransactionHash: h7, Version: one, CallData: feltsN(n, 1)})
-	tx("array:InvokeTransaction.TransactionSignature", &core.InvokeTransaction{TransactionHash: h7, Version: one, TransactionSignature: feltsN(n, 2)})
-	tx("array:InvokeTransaction.PaymasterData+AccountDeploymentData+ProofFacts", &core.InvokeTransaction{TransactionHash: h7, Version: one,
-		PaymasterData: feltsN(n, 3), AccountDeploymentData: feltsN(n, 4), ProofFacts: feltsN(n, 5)})
-	tx("array:DeployAccountTransaction.ConstructorCallData", &core.DeployAccountTransaction{
-		DeployTransaction: core.DeployTransaction{TransactionHash: h7, Version: one, ConstructorCallData: feltsN(n, 6)}})
-	tx("array:L1HandlerTransaction.CallData", &core.L1HandlerTransaction{TransactionHash: h7, Version: one, CallData: feltsN(n, 7)})
-	tx("array:DeclareTransaction.TransactionSignature", &core.DeclareTransaction{TransactionHash: h7, Version: one, TransactionSignature: feltsN(n, 8)})
-
-	evs := make([]*core.Event, n)
-	for i := range evs {
-		evs[i] = &core.Event{}
-	}
-	rc("array:TransactionReceipt.Events", &core.TransactionReceipt{TransactionHash: h7, Events: evs})
-	rc("array:Event.Keys+Data", &core.TransactionReceipt{TransactionHash: h7, Events: []*core.Event{{From: h7, Keys: feltsN(n, 9), Data: feltsN(n, 10)}}})
-	msgs := make([]*core.L2ToL1Message, n)
-	for i := range msgs {
-		msgs[i] = &core.L2ToL1Message{}
-	}
-	rc("array:TransactionReceipt.L2ToL1Message", &core.TransactionReceipt{TransactionHash: h7, L2ToL1Message: msgs})
-	rc("array:L1ToL2Message.Payload+L2ToL1Message.Payload", &core.TransactionReceipt{TransactionHash: h7,
-		L1ToL2Message: &core.L1ToL2Message{Payload: feltsN(n, 11)}, L2ToL1Message: []*core.L2ToL1Message{{Payload: feltsN(n, 12)}}})
-
-	sigs := make([][]*felt.Felt, n)
-	hdr := &core.Header{Hash: h7, Number: 1, Signatures: sigs}
-	out = append(out, sized{kind: "array:Header.Signatures",
-		write: func(d *memory.Database) error { return core.WriteBlockHeader(d, hdr) },
-		read:  func(d *memory.Database) (any, error) { return core.GetBlockHeaderByNumber(d, 1) },
-		want:  hdr})
-
-	v0 := make([]*felt.Felt, n)
-	su("array:StateDiff.DeclaredV0Classes", &core.StateDiff{DeclaredV0Classes: v0})
-	su("map:StateDiff.Nonces", &core.StateDiff{Nonces: feltMapN(n, 1)})
-	su("map:StateDiff.DeployedContracts", &core.StateDiff{DeployedContracts: feltMapN(n, 2)})
-	su("map:StateDiff.DeclaredV1Classes", &core.StateDiff{DeclaredV1Classes: feltMapN(n, 3)})
-	su("map:StateDiff.ReplacedClasses", &core.StateDiff{ReplacedClasses: feltMapN(n, 4)})
-	su("map:StateDiff.StorageDiffs(inner)", &core.StateDiff{StorageDiffs: map[felt.Felt]map[felt.Felt]*felt.Felt{*h7: feltMapN(n, 5)}})
-	outer := make(map[felt.Felt]map[felt.Felt]*felt.Felt, n)
-	for i := 0; i < n; i++ {
-		outer[felt.Felt{uint64(i) + 1, 6, 0, 0}] = nil
-	}
-	su("map:StateDiff.StorageDiffs(outer)", &core.StateDiff{StorageDiffs: outer})
-	mig := make(map[felt.SierraClassHash]felt.CasmClassHash, n)
-	for i := 0; i < n; i++ {
-		mig[felt.SierraClassHash(felt.Felt{uint64(i) + 1, 7, 0, 0})] = felt.CasmClassHash(felt.Felt{uint64(i), 0, 0, 0})
-	}
-	su("map:StateDiff.MigratedClasses", &core.StateDiff{MigratedClasses: mig})
-
-	class("array:SierraClass.Program", &core.SierraClass{Program: felt.Slice[felt.Felt](feltsN(n, 13))})
-	class("array:CasmClass.Bytecode", &core.SierraClass{Compiled: &core.CasmClass{Bytecode: felt.Slice[felt.Felt](feltsN(n, 14))}})
-	class("array:SierraClass.EntryPoints.External", &core.SierraClass{EntryPoints: core.SierraEntryPointsByType{External: make([]core.SierraEntryPoint, n)}})
-	class("array:CasmClass.External+Builtins+SegmentLengths.Children", &core.SierraClass{Compiled: &core.CasmClass{
-		External:               append(make([]core.CasmEntryPoint, n-1, n), core.CasmEntryPoint{Builtins: make([]string, n)}),
-		BytecodeSegmentLengths: core.SegmentLengths{Children: make([]core.SegmentLengths, n)}}})
-	class("array:DeprecatedCairoClass.Externals", &core.DeprecatedCairoClass{Externals: make([]core.DeprecatedEntryPoint, n)})
-	class("string:DeprecatedCairoClass.Program+Abi", &core.DeprecatedCairoClass{Program: strings.Repeat("A", n),
-		Abi: json.RawMessage("\"" + strings.Repeat("b", n) + "\"")})
+	type T = core.Transaction
+	type R = *core.TransactionReceipt
+	type D = *core.StateDiff
+	type C = core.ClassDefinition
+	tx("array:InvokeTransaction.CallData", func() T {
+		return &core.InvokeTransaction{TransactionHash: h7, Version: one, CallData: feltsN(n, 1)}
+	})
+	tx("array:InvokeTransaction.TransactionSignature", func() T {
+		return &core.InvokeTransaction{TransactionHash: h7, Version: one, TransactionSignature: feltsN(n, 2)}
+	})
+	tx("array:InvokeTransaction.PaymasterData+AccountDeploymentData+ProofFacts", func() T {
+		return &core.InvokeTransaction{TransactionHash: h7, Version: one,
+			PaymasterData: feltsN(n, 3), AccountDeploymentData: feltsN(n, 4), ProofFacts: feltsN(n, 5)}
+	})
+	tx("array:DeployAccountTransaction.ConstructorCallData", func() T {
+		return &core.DeployAccountTransaction{
+			DeployTransaction: core.DeployTransaction{TransactionHash: h7, Version: one, ConstructorCallData: feltsN(n, 6)}}
+	})
+	tx("array:L1HandlerTransaction.CallData", func() T {
+		return &core.L1HandlerTransaction{TransactionHash: h7, Version: one, CallData: feltsN(n, 7)}
+	})
+	tx("array:DeclareTransaction.TransactionSignature", func() T {
+		return &core.DeclareTransaction{TransactionHash: h7, Version: one, TransactionSignature: feltsN(n, 8)}
+	})
+	rc("array:TransactionReceipt.Events", func() R {
+		evs := make([]*core.Event, n)
+		for i := range evs {
+			evs[i] = &core.Event{}
+		}
+		return &core.TransactionReceipt{TransactionHash: h7, Events: evs}
+	})
+	rc("array:Event.Keys+Data", func() R {
+		return &core.TransactionReceipt{TransactionHash: h7, Events: []*core.Event{{From: h7, Keys: feltsN(n, 9), Data: feltsN(n, 10)}}}
+	})
+	rc("array:TransactionReceipt.L2ToL1Message", func() R {
+		msgs := make([]*core.L2ToL1Message, n)
+		for i := range msgs {
+			msgs[i] = &core.L2ToL1Message{}
+		}
+		return &core.TransactionReceipt{TransactionHash: h7, L2ToL1Message: msgs}
+	})
+	rc("array:L1ToL2Message.Payload+L2ToL1Message.Payload", func() R {
+		return &core.TransactionReceipt{TransactionHash: h7,
+			L1ToL2Message: &core.L1ToL2Message{Payload: feltsN(n, 11)}, L2ToL1Message: []*core.L2ToL1Message{{Payload: feltsN(n, 12)}}}
+	})
+	out = append(out, lazySized{"array:Header.Signatures", func() sized {
+		hdr := &core.Header{Hash: h7, Number: 1, Signatures: make([][]*felt.Felt, n)}
+		return sized{kind: "array:Header.Signatures",
+			write: func(d *memory.Database) error { return core.WriteBlockHeader(d, hdr) },
+			read:  func(d *memory.Database) (any, error) { return core.GetBlockHeaderByNumber(d, 1) },
+			want:  hdr}
+	}})
+	su("array:StateDiff.DeclaredV0Classes", func() D { return &core.StateDiff{DeclaredV0Classes: make([]*felt.Felt, n)} })
+	su("map:StateDiff.Nonces", func() D { return &core.StateDiff{Nonces: feltMapN(n, 1)} })
+	su("map:StateDiff.DeployedContracts", func() D { return &core.StateDiff{DeployedContracts: feltMapN(n, 2)} })
+	su("map:StateDiff.DeclaredV1Classes", func() D { return &core.StateDiff{DeclaredV1Classes: feltMapN(n, 3)} })
+	su("map:StateDiff.ReplacedClasses", func() D { return &core.StateDiff{ReplacedClasses: feltMapN(n, 4)} })
+	su("map:StateDiff.StorageDiffs(inner)", func() D {
+		return &core.StateDiff{StorageDiffs: map[felt.Felt]map[felt.Felt]*felt.Felt{*h7: feltMapN(n, 5)}}
+	})
+	su("map:StateDiff.StorageDiffs(outer)", func() D {
+		outer := make(map[felt.Felt]map[felt.Felt]*felt.Felt, n)
+		for i := 0; i < n; i++ {
+			outer[felt.Felt{uint64(i) + 1, 6, 0, 0}] = nil
+		}
+		return &core.StateDiff{StorageDiffs: outer}
+	})
+	su("map:StateDiff.MigratedClasses", func() D {
+		mig := make(map[felt.SierraClassHash]felt.CasmClassHash, n)
+		for i := 0; i < n; i++ {
+			mig[felt.SierraClassHash(felt.Felt{uint64(i) + 1, 7, 0, 0})] = felt.CasmClassHash(felt.Felt{uint64(i), 0, 0, 0})
+		}
+		return &core.StateDiff{MigratedClasses: mig}
+	})
+	class("array:SierraClass.Program", func() C { return &core.SierraClass{Program: felt.Slice[felt.Felt](feltsN(n, 13))} })
+	class("array:CasmClass.Bytecode", func() C {
+		return &core.SierraClass{Compiled: &core.CasmClass{Bytecode: felt.Slice[felt.Felt](feltsN(n, 14))}}
+	})
+	class("array:SierraClass.EntryPoints.External", func() C {
+		return &core.SierraClass{EntryPoints: core.SierraEntryPointsByType{External: make([]core.SierraEntryPoint, n)}}
+	})
+	class("array:CasmClass.External+Builtins+SegmentLengths.Children", func() C {
+		return &core.SierraClass{Compiled: &core.CasmClass{
+			External:               append(make([]core.CasmEntryPoint, n-1, n), core.CasmEntryPoint{Builtins: make([]string, n)}),
+			BytecodeSegmentLengths: core.SegmentLengths{Children: make([]core.SegmentLengths, n)}}}
+	})
+	class("array:DeprecatedCairoClass.Externals", func() C {
+		return &core.DeprecatedCairoClass{Externals: make([]core.DeprecatedEntryPoint, n)}
+	})
+	class("string:DeprecatedCairoClass.Program+Abi", func() C {
+		return &core.DeprecatedCairoClass{Program: strings.Repeat("A", n), Abi: json.RawMessage("\"" + strings.Repeat("b", n) + "\"")}
+	})
 	return out
 }
 
@@ -200,53 +250,95 @@ func lengthSuite(c *hx.Ctx, ks []int, only string, onlyLen int) {
 		n    int
 		what string
 	}
-	fails := map[string][]fl{}
-	var order []string
+	type job struct {
+		k, n int
+		lz   lazySized
+		res  string // "" ok, "refused", or the failure
+	}
+	var jobs []*job
 	for _, k := range ks {
 		for _, n := range []int{1<<k - 1, 1 << k, 1<<k + 1} {
 			if onlyLen > 0 && n != onlyLen {
 				continue
 			}
-			for _, sv := range sizedValues(n) {
-				if only != "" && sv.kind != only {
+			for _, lz := range sizedValues(n) {
+				if only != "" && lz.kind != only {
 					continue
 				}
-				c.Evaluations++
-				c.Hist[fmt.Sprintf("length-suite:2^%d", k)]++
-				d := memory.New()
-				what := ""
-				if err := sv.write(d); err != nil {
-					d.Close()
-					c.Hist["length-suite:write-refused"]++
-					continue // a refused write stores nothing: the property is kept
-				}
-				got, err := sv.read(d)
-				d.Close()
-				switch {
-				case err != nil:
-					what = "written without error, read fails: " + err.Error()
-				case !sameStored(sv.want, got):
-					what = "read back differs from what was stored"
-				}
-				if what == "" {
-					continue
-				}
-				container := sv.kind[:strings.Index(sv.kind, ":")]
-				class := fmt.Sprintf("unreadable-after-write:%s-longer-than-%s", container, pow2Name(n))
-				if !strings.HasPrefix(what, "written") {
-					class = fmt.Sprintf("length-boundary:%s-at-%s", container, pow2Name(n))
-				}
-				if _, ok := fails[class]; !ok {
-					order = append(order, class)
-				}
-				fails[class] = append(fails[class], fl{sv.kind, n, what})
+				jobs = append(jobs, &job{k: k, n: n, lz: lz})
 			}
 		}
+	}
+	// independent values, each on its own memory database: run 8 at a time
+	sem := make(chan struct{}, 8)
+	var wg sync.WaitGroup
+	for _, j := range jobs {
+		wg.Add(1)
+		sem <- struct{}{}
+		go func(j *job) {
+			defer wg.Done()
+			defer func() { <-sem }()
+			defer func() {
+				if p := recover(); p != nil {
+					j.res = fmt.Sprint("panic: ", p)
+				}
+			}()
+			sv := j.lz.build()
+			d := memory.New()
+			defer d.Close()
+			if err := sv.write(d); err != nil {
+				j.res = "refused"
+				return // a refused write stores nothing: the property is kept
+			}
+			got, err := sv.read(d)
+			switch {
+			case err != nil:
+				j.res = "written without error, read fails: " + err.Error()
+			case !sameStored(sv.want, got):
+				j.res = "read back differs from what was stored"
+			}
+		}(j)
+	}
+	wg.Wait()
+	fails := map[string][]fl{}
+	groupClass := map[string]string{}
+	var order []string
+	for _, j := range jobs {
+		c.Evaluations++
+		c.Hist[fmt.Sprintf("length-suite:2^%d", j.k)]++
+		if j.res == "refused" {
+			c.Hist["length-suite:write-refused"]++
+			continue
+		}
+		if j.res == "" {
+			continue
+		}
+		// one class per container type and failure mode, named after the smallest failing length (jobs
+		// are in increasing length order): larger lengths failing for the same reason are listed under it
+		container := j.lz.kind[:strings.Index(j.lz.kind, ":")]
+		group := container + "|unreadable"
+		if !strings.HasPrefix(j.res, "written") {
+			group = container + "|differs"
+		}
+		class, ok := groupClass[group]
+		if !ok {
+			class = fmt.Sprintf("unreadable-after-write:%s-longer-than-%s", container, pow2Name(j.n))
+			if !strings.HasPrefix(j.res, "written") {
+				class = fmt.Sprintf("length-boundary:%s-at-%s", container, pow2Name(j.n))
+			}
+			groupClass[group] = class
+			order = append(order, class)
+		}
+		fails[class] = append(fails[class], fl{j.lz.kind, j.n, j.res})
 	}
 	for _, class := range order {
 		fs := fails[class]
 		kinds := []string{}
 		for _, f := range fs {
+			if len(kinds) == 12 {
+				kinds = append(kinds, fmt.Sprintf("… %d more", len(fs)-12))
+				break
+			}
 			kinds = append(kinds, fmt.Sprintf("%s(len %d)", strings.SplitN(f.kind, ":", 2)[1], f.n))
 		}
 		c.Violation(class, fmt.Sprintf("%s with %d elements: %s; all failing containers: %s", fs[0].kind, fs[0].n, fs[0].what, strings.Join(kinds, ", ")),
@@ -256,53 +348,61 @@ func lengthSuite(c *hx.Ctx, ks []int, only string, onlyLen int) {
 
 // sameStored: deep equality, with the interface-typed results unwrapped and the one documented
 // omitempty normalisation not needed here (no empty ProofFacts is generated).
-func sameStored(want, got any) bool {
-	if reflect.DeepEqual(want, got) {
-		return true
-	}
-	// accessors returning an interface (Transaction) vs the concrete pointer stored
-	wv, gv := reflect.ValueOf(want), reflect.ValueOf(got)
-	if wv.IsValid() && gv.IsValid() && wv.Type() == gv.Type() {
-		return false
-	}
-	return false
-}
+func sameStored(want, got any) bool { return reflect.DeepEqual(want, got) }
 
-// limitProbe: the configured decoder limit itself. Values just below / at the limit must round-trip;
-// what happens just above is recorded (it is the same encode-accepts / decode-rejects asymmetry).
-func limitProbe(c *hx.Ctx, limit int64) map[string]string {
+// limitProbe: the configured decoder limits themselves (read from encoder.go). Values just below / at
+// a limit must round-trip; what happens just above is recorded in the evidence (the encoder has no
+// limit, so anything beyond is still the encode-accepts / decode-rejects asymmetry, at sizes no suite
+// demands). Arrays: 1-byte elements (nil entries of DeclaredV0Classes); maps: Nonces with nil values.
+func limitProbe(c *hx.Ctx, limits map[string]int64) map[string]string {
 	res := map[string]string{}
-	if limit <= 0 || limit > 1<<26 {
-		res["skipped"] = fmt.Sprintf("limit %d not probed (memory)", limit)
-		return res
-	}
-	for _, n := range []int64{limit - 1, limit, limit + 1} {
-		u := &core.StateUpdate{StateDiff: &core.StateDiff{DeclaredV0Classes: make([]*felt.Felt, n)}}
-		enc, err := encoder.Marshal(u)
-		if err != nil {
-			res[fmt.Sprint(n)] = "encode refused: " + err.Error()
-			continue
+	probe := func(tag string, limit int64, mk func(n int64) *core.StateDiff, length func(d *core.StateDiff) int) {
+		if limit <= 0 {
+			res[tag] = "not set in encoder.go (library default)"
+			return
 		}
-		var back core.StateUpdate
-		err = encoder.Unmarshal(enc, &back)
-		c.Evaluations++
-		switch {
-		case err != nil:
-			res[fmt.Sprint(n)] = "encoded without error, decode fails: " + err.Error()
-			if n <= limit {
-				c.Violation("unreadable-after-write:array-within-configured-limit", fmt.Sprintf("array of %d elements (configured MaxArrayElements %d): %v", n, limit, err),
+		if limit > 1<<24 {
+			res[tag] = fmt.Sprintf("limit %d not probed (memory)", limit)
+			return
+		}
+		for _, n := range []int64{limit - 1, limit, limit + 1} {
+			key := fmt.Sprintf("%s:%d", tag, n)
+			u := &core.StateUpdate{StateDiff: mk(n)}
+			enc, err := encoder.Marshal(u)
+			if err != nil {
+				res[key] = "encode refused: " + err.Error()
+				continue
+			}
+			var back core.StateUpdate
+			err = encoder.Unmarshal(enc, &back)
+			c.Evaluations++
+			switch {
+			case err != nil:
+				res[key] = "encoded without error, decode fails: " + err.Error()
+				if n <= limit {
+					c.Violation("unreadable-after-write:"+tag+"-within-configured-limit", fmt.Sprintf("%s of %d elements (configured limit %d): %v", tag, n, limit, err),
+						Replay{Seed: c.Seed, Case: -1, OnlyBlock: -1, OnlyTx: -1, Accessor: "limit-probe", Index: int(n)}, false)
+				}
+			case length(back.StateDiff) != int(n):
+				res[key] = "decoded with a different length"
+				c.Violation("length-boundary:"+tag+"-at-configured-limit", fmt.Sprintf("%s of %d elements decodes to %d", tag, n, length(back.StateDiff)),
 					Replay{Seed: c.Seed, Case: -1, OnlyBlock: -1, OnlyTx: -1, Accessor: "limit-probe", Index: int(n)}, false)
-			}
-		case len(back.StateDiff.DeclaredV0Classes) != int(n):
-			res[fmt.Sprint(n)] = "decoded with a different length"
-		default:
-			enc2, _ := encoder.Marshal(&back)
-			if bytes.Equal(enc, enc2) {
-				res[fmt.Sprint(n)] = "round-trips"
-			} else {
-				res[fmt.Sprint(n)] = "re-encoding differs"
+			default:
+				res[key] = "round-trips"
 			}
 		}
 	}
+	probe("array", limits["MaxArrayElements"],
+		func(n int64) *core.StateDiff { return &core.StateDiff{DeclaredV0Classes: make([]*felt.Felt, n)} },
+		func(d *core.StateDiff) int { return len(d.DeclaredV0Classes) })
+	probe("map", limits["MaxMapPairs"],
+		func(n int64) *core.StateDiff {
+			m := make(map[felt.Felt]*felt.Felt, n)
+			for i := int64(0); i < n; i++ {
+				m[felt.Felt{uint64(i) + 1, 0, 0, 0}] = nil
+			}
+			return &core.StateDiff{Nonces: m}
+		},
+		func(d *core.StateDiff) int { return len(d.Nonces) })
 	return res
 }
